@@ -55,7 +55,7 @@ def wf_problems(obj):
 
 def dense(cores):
     """Own contraction of the cores to the dense array (operator: rows first, then columns)."""
-    cs = [c.detach() for c in cores]
+    cs = [c.detach().resolve_conj() for c in cores]
     if cs[0].dim() == 3:
         t = cs[0][0]                                   # n1 x r
         for c in cs[1:]:
